@@ -1,6 +1,7 @@
 //! Operation alphabet of the arena explorer, with a textual form used in evidence samples and replay files.
 
 use crate::facade::{Region, TypedOp};
+use crate::mutcoll::{MutEnd, MutExtra, MutKind, MutSpec};
 use std::fmt;
 
 #[derive(Clone, Copy, Debug, PartialEq, Eq, Hash)]
@@ -82,6 +83,71 @@ pub enum Op {
     GrowHuge { sel: Sel },
     /// `try_reserve(usize::MAX)` / `try_reserve(isize::MAX)`
     ReserveHuge { max: bool },
+    /// C15: an exclusive-borrow collection or `*_mut` helper, from creation to its end
+    MutColl(MutSpec),
+}
+
+fn mutspec_str(m: &MutSpec) -> String {
+    let kind = match m.kind {
+        MutKind::Vec => "vec",
+        MutKind::VecRev => "vecrev",
+        MutKind::Str => "str",
+        MutKind::IterMut => "itermut",
+        MutKind::IterMutRev => "itermutrev",
+        MutKind::FmtMut => "fmtmut",
+        MutKind::CstrFmtMut => "cstrfmtmut",
+    };
+    let extra = match m.extra {
+        MutExtra::None => "none".to_string(),
+        MutExtra::Reserve(n) => format!("reserve{n}"),
+        MutExtra::ExtendUnder(n) => format!("extendunder{n}"),
+        MutExtra::ExtendOver(n) => format!("extendover{n}"),
+    };
+    let end = match m.end {
+        MutEnd::Drop => "drop",
+        MutEnd::Unwind => "unwind",
+        MutEnd::Finalise => "finalise",
+        MutEnd::FinaliseBoxed => "boxed",
+        MutEnd::FinaliseCstr => "cstr",
+    };
+    format!("{kind}.{}.{}.{}.{extra}.{end}", m.elem, m.cap, m.pushes)
+}
+
+fn mutspec_parse(s: &str) -> Option<MutSpec> {
+    let p: Vec<&str> = s.split('.').collect();
+    if p.len() != 6 {
+        return None;
+    }
+    let kind = match p[0] {
+        "vec" => MutKind::Vec,
+        "vecrev" => MutKind::VecRev,
+        "str" => MutKind::Str,
+        "itermut" => MutKind::IterMut,
+        "itermutrev" => MutKind::IterMutRev,
+        "fmtmut" => MutKind::FmtMut,
+        "cstrfmtmut" => MutKind::CstrFmtMut,
+        _ => return None,
+    };
+    let extra = if p[4] == "none" {
+        MutExtra::None
+    } else if let Some(n) = p[4].strip_prefix("reserve") {
+        MutExtra::Reserve(n.parse().ok()?)
+    } else if let Some(n) = p[4].strip_prefix("extendunder") {
+        MutExtra::ExtendUnder(n.parse().ok()?)
+    } else if let Some(n) = p[4].strip_prefix("extendover") {
+        MutExtra::ExtendOver(n.parse().ok()?)
+    } else {
+        return None;
+    };
+    let end = match p[5] {
+        "drop" => MutEnd::Drop,
+        "unwind" => MutEnd::Unwind,
+        "finalise" => MutEnd::Finalise,
+        "boxed" => MutEnd::FinaliseBoxed,
+        "cstr" => MutEnd::FinaliseCstr,
+        _ => return None,
+    };
+    Some(MutSpec { kind, elem: p[1].parse().ok()?, cap: p[2].parse().ok()?, pushes: p[3].parse().ok()?, extra, end })
 }
 
 impl fmt::Display for Sel {
@@ -307,6 +373,7 @@ impl fmt::Display for Op {
             Op::AllocHuge { align } => write!(f, "allochuge:{align}"),
             Op::GrowHuge { sel } => write!(f, "growhuge:{sel}"),
             Op::ReserveHuge { max } => write!(f, "reservehuge:{}", if max { "usize" } else { "isize" }),
+            Op::MutColl(m) => write!(f, "mutcoll:{}", mutspec_str(&m)),
         }
     }
 }
@@ -352,6 +419,7 @@ impl Op {
             "allochuge" => Op::AllocHuge { align: n(1)? },
             "growhuge" => Op::GrowHuge { sel: Sel::parse(parts.get(1)?)? },
             "reservehuge" => Op::ReserveHuge { max: *parts.get(1)? == "usize" },
+            "mutcoll" => Op::MutColl(mutspec_parse(parts.get(1)?)?),
             _ => return None,
         })
     }
